@@ -55,7 +55,7 @@ def run(prop, tier, seed, work, ev):
     # which of several failures is reported: the first one in evaluation order (written order of hash members and operands, element order
     # inside by-functions) -- judged by the kind of the reported failure
     import eng_eval
-    rejects += eng_eval.pool_families(["errpair", "keyorder", "byorder", "selfnest"], work, ev, drv)
+    rejects += eng_eval.pool_families(["errpair", "keyorder", "byorder", "selfnest", "tonum"], work, ev, drv)
     # compile failures: coordinates of every parse error
     c = work.path("errchars.cases")
     eng_lang.gen(work, "chars", c, t["chars"], alpha="err")
